@@ -67,7 +67,7 @@ Users == Len(isecs) - 1 - (IF atid = 0 THEN 0 ELSE 1)
 INew(a, o, b, v) ==
   /\ pc = "build" /\ ~sized /\ Users < MaxUser
   /\ AddSection(o, a, b, v)
-  /\ C!NewSectionFull(o, a, Data(Len(isecs) + 1, b), v)
+  /\ C!NewSectionFull("user", o, a, Data(Len(isecs) + 1, b), v)
   /\ last' = None
   /\ hist' = Append(hist, <<1, a, o, b, v>>)
   /\ UNCHANGED <<pc, sized>>
@@ -75,7 +75,7 @@ INew(a, o, b, v) ==
 IAddrTab(v) ==
   /\ pc = "build" /\ ~sized /\ atid = 0
   /\ AddSection(MaxInt, 8, 0, v)
-  /\ C!AddrTabOnly([id |-> Len(isecs), align |-> 8, order |-> MaxInt, vsize |-> v, buf |-> 0])
+  /\ C!AddrTabOnly([id |-> Len(isecs), name |-> ".addrtab", align |-> 8, order |-> MaxInt, vsize |-> v, buf |-> 0])
   /\ last' = None
   /\ hist' = Append(hist, <<2, 8, MaxInt, 0, v>>)
   /\ UNCHANGED <<pc, sized>>
@@ -144,7 +144,7 @@ CopyLoop(k, img, end, dstSize, flags) ==
        ELSE LET pad  == IF C!HasFlag(flags, C!PadSection) /\ s.buf < s.vsize
                           THEN Min(dstSize - s.off, s.vsize) - s.buf ELSE 0
                 img1 == [p \in DOMAIN img |->
-                           IF p >= s.off /\ p < s.off + s.buf THEN DataByte(i, s.buf, p - s.off)
+                           IF p >= s.off /\ p < s.off + s.buf THEN (IF i = atid THEN 7 ELSE DataByte(i, s.buf, p - s.off))
                            ELSE IF p >= s.off + s.buf /\ p < s.off + s.buf + pad THEN 0
                            ELSE img[p]]
             IN CopyLoop(k + 1, img1, Max(end, s.off + s.buf + pad), dstSize, flags)
@@ -168,7 +168,7 @@ ICopy(dstSize, flags) ==
 
 Init == /\ \E b \in TextBufs :
              /\ isecs = << [order |-> MinInt, align |-> 0, buf |-> b, vsize |-> 0, off |-> 0] >>
-             /\ secs = << [C!NewSec(MinInt, 0) EXCEPT !.data = Data(1, b), !.buf = b, !.off = 0] >>
+             /\ secs = << [C!NewSec(".text", MinInt, 0) EXCEPT !.data = Data(1, b), !.buf = b, !.off = 0] >>
              /\ hist = << <<0, 0, MinInt, b, 0>> >>
         /\ byorder = <<1>>
         /\ pc = "build" /\ sized = FALSE
